@@ -80,9 +80,11 @@ def shards_repetition(tier):
 
 
 def shards_setup(tier):
+    # setupall: every count vector of both sides and every placement offered there (7 561 events, exhaustive
+    # in the sense of spec/mc/MC_setup.tla's VIEW); setup: random complete orders
     if tier == "quick":
-        return [("setup", 4000)] * 10
-    return [("setup", 10000)] * 42
+        return [("setupall", 1000000)] + [("setup", 4000)] * 9
+    return [("setupall", 1000000)] + [("setup", 10000)] * 41
 
 
 NONTRIVIAL = {
